@@ -44,6 +44,10 @@ import (
 	"github.com/nuts-foundation/nuts-node/audit"
 	nutsCrypto "github.com/nuts-foundation/nuts-node/crypto"
 	"github.com/nuts-foundation/nuts-node/crypto/hash"
+	"github.com/nuts-foundation/nuts-node/crypto/jwx"
+	"crypto/ed25519"
+	"crypto/rsa"
+	"github.com/lestrrat-go/jwx/v2/jwa"
 	"github.com/nuts-foundation/nuts-node/network/dag/tree"
 	"github.com/nuts-foundation/nuts-node/vdr/resolver"
 	"github.com/sirupsen/logrus"
@@ -67,17 +71,72 @@ func v6NewKey() *v6Key {
 }
 
 func v6KeyOf(p *ecdsa.PrivateKey) *v6Key {
-	x, y := p.X.FillBytes(make([]byte, 32)), p.Y.FillBytes(make([]byte, 32))
-	j := fmt.Sprintf(`{"crv":"P-256","kty":"EC","x":"%s","y":"%s"}`, base64.RawURLEncoding.EncodeToString(x), base64.RawURLEncoding.EncodeToString(y))
-	jd := fmt.Sprintf(`{"crv":"P-256","d":"%s","kty":"EC","x":"%s","y":"%s"}`, base64.RawURLEncoding.EncodeToString(p.D.FillBytes(make([]byte, 32))),
+	n := (p.Curve.Params().BitSize + 7) / 8
+	crv := p.Curve.Params().Name
+	x, y := p.X.FillBytes(make([]byte, n)), p.Y.FillBytes(make([]byte, n))
+	j := fmt.Sprintf(`{"crv":"%s","kty":"EC","x":"%s","y":"%s"}`, crv, base64.RawURLEncoding.EncodeToString(x), base64.RawURLEncoding.EncodeToString(y))
+	jd := fmt.Sprintf(`{"crv":"%s","d":"%s","kty":"EC","x":"%s","y":"%s"}`, crv, base64.RawURLEncoding.EncodeToString(p.D.FillBytes(make([]byte, n))),
 		base64.RawURLEncoding.EncodeToString(x), base64.RawURLEncoding.EncodeToString(y))
-	return &v6Key{priv: p, jwk: j, jwkD: jd, hex: hex.EncodeToString(p.D.FillBytes(make([]byte, 32)))}
+	h := hex.EncodeToString(p.D.FillBytes(make([]byte, n)))
+	if crv != "P-256" {
+		h = crv + ":" + h // keys of another curve carry it in the ops file
+	}
+	return &v6Key{priv: p, jwk: j, jwkD: jd, hex: h}
+}
+
+// v6NewKeyOn: a fresh key on the named curve (the extra resolver-only key of a history: a DID document may hold a P-384 key)
+func v6NewKeyOn(crv string) *v6Key {
+	c := map[string]elliptic.Curve{"P-256": elliptic.P256(), "P-384": elliptic.P384(), "P-521": elliptic.P521()}[crv]
+	p, err := ecdsa.GenerateKey(c, crand.Reader)
+	if err != nil {
+		panic(err)
+	}
+	return v6KeyOf(p)
+}
+
+func (k *v6Key) crv() string { return k.priv.Curve.Params().Name }
+
+// v6AlgDigest: the digest a JWS ECDSA signer/verifier takes for a header algorithm (RFC 7518 3.4), nil = not an ECDSA algorithm
+func v6AlgDigest(alg string, signingInput string) []byte {
+	switch alg {
+	case "ES256":
+		h := sha256.Sum256([]byte(signingInput))
+		return h[:]
+	case "ES384":
+		h := sha512.Sum384([]byte(signingInput))
+		return h[:]
+	case "ES512":
+		h := sha512.Sum512([]byte(signingInput))
+		return h[:]
+	}
+	return nil
+}
+
+// v6EcVerifyAlg: r||s of the key's own size, digest by the header algorithm, on the key's own curve. With strict=true the
+// algorithm must be the one RFC 7518 3.4 assigns to that curve (the verdict of the property); strict=false is the "family
+// only" verdict of a JWS library that does not compare algorithm and curve (only handed to the model, which applies
+// AlgorithmFitsKey itself before it consults it).
+func v6EcVerifyAlg(pub *ecdsa.PublicKey, alg string, signingInput string, sig []byte, strict bool) bool {
+	n := (pub.Curve.Params().BitSize + 7) / 8
+	d := v6AlgDigest(alg, signingInput)
+	if d == nil || len(sig) != 2*n {
+		return false
+	}
+	if strict && alg != map[string]string{"P-256": "ES256", "P-384": "ES384", "P-521": "ES512"}[pub.Curve.Params().Name] {
+		return false
+	}
+	return ecdsa.Verify(pub, d, new(big.Int).SetBytes(sig[:n]), new(big.Int).SetBytes(sig[n:]))
 }
 
 func v6KeyFromHex(h string) *v6Key {
+	crv := elliptic.P256()
+	if i := strings.Index(h, ":"); i >= 0 {
+		crv = map[string]elliptic.Curve{"P-256": elliptic.P256(), "P-384": elliptic.P384(), "P-521": elliptic.P521()}[h[:i]]
+		h = h[i+1:]
+	}
 	d, _ := hex.DecodeString(h)
 	p := new(ecdsa.PrivateKey)
-	p.Curve = elliptic.P256()
+	p.Curve = crv
 	p.D = new(big.Int).SetBytes(d)
 	p.X, p.Y = p.Curve.ScalarBaseMult(d)
 	return v6KeyOf(p)
@@ -419,7 +478,20 @@ func v6EcVerify(pub *ecdsa.PublicKey, signingInput string, sig []byte) bool {
 // v6Verdicts: does the signature verify (ES256 only: every key here is P-256, any other alg cannot match the key)
 // against the embedded jwk / against each known key. Uses crypto/ecdsa directly.
 func v6Verdicts(input []byte, keys []*v6Key) (sigJwk bool, sigKeys []int) {
-	sigKeys = []int{}
+	v := v6VerdictsAll(input, keys)
+	return v.sigJwk, v.sigKeys
+}
+
+type v6Verdict struct {
+	sigJwk  bool  // strict (RFC 7518 3.4: ES256 = P-256 + SHA-256, ES384 = P-384 + SHA-384, ES512 = P-521 + SHA-512)
+	sigKeys []int // strict, per known key
+	laxJwk  bool  // family only: digest by the header algorithm, on whatever curve the key has
+	laxKeys []int
+	jwkCrv  string // curve of an embedded EC key ("" = none / not EC)
+}
+
+func v6VerdictsAll(input []byte, keys []*v6Key) (v v6Verdict) {
+	v.sigKeys, v.laxKeys = []int{}, []int{}
 	prot, pl, sig, ok := v6Frame(input)
 	if !ok {
 		return
@@ -442,41 +514,46 @@ func v6Verdicts(input []byte, keys []*v6Key) (sigJwk bool, sigKeys []int) {
 		}
 	}
 	si := prot + "." + pl
-	if alg == `"ES256"` {
-		for i, k := range keys {
-			if v6EcVerify(&k.priv.PublicKey, si, sig) {
-				sigKeys = append(sigKeys, i)
-			}
+	algName := strings.Trim(alg, `"`)
+	if alg != `"`+algName+`"` {
+		algName = ""
+	}
+	for i, k := range keys {
+		if v6EcVerifyAlg(&k.priv.PublicKey, algName, si, sig, true) {
+			v.sigKeys = append(v.sigKeys, i)
+		}
+		if v6EcVerifyAlg(&k.priv.PublicKey, algName, si, sig, false) {
+			v.laxKeys = append(v.laxKeys, i)
 		}
 	}
 	if jwkRaw != "" {
-		// RFC 7518 3.4: ES256 = P-256 + SHA-256, ES384 = P-384 + SHA-384, ES512 = P-521 + SHA-512; nothing else is a valid ECDSA JWS
 		var j struct{ Kty, Crv, X, Y string }
 		if json.Unmarshal([]byte(jwkRaw), &j) == nil && j.Kty == "EC" {
-			var curve elliptic.Curve
-			var digest []byte
-			switch {
-			case alg == `"ES256"` && j.Crv == "P-256":
-				h := sha256.Sum256([]byte(si))
-				curve, digest = elliptic.P256(), h[:]
-			case alg == `"ES384"` && j.Crv == "P-384":
-				h := sha512.Sum384([]byte(si))
-				curve, digest = elliptic.P384(), h[:]
-			case alg == `"ES512"` && j.Crv == "P-521":
-				h := sha512.Sum512([]byte(si))
-				curve, digest = elliptic.P521(), h[:]
-			}
+			v.jwkCrv = j.Crv
+			curve := map[string]elliptic.Curve{"P-256": elliptic.P256(), "P-384": elliptic.P384(), "P-521": elliptic.P521()}[j.Crv]
 			x, e1 := base64.RawURLEncoding.DecodeString(j.X)
 			y, e2 := base64.RawURLEncoding.DecodeString(j.Y)
-			if curve != nil && e1 == nil && e2 == nil && len(sig)%2 == 0 && len(sig) == 2*((curve.Params().BitSize+7)/8) {
+			if curve != nil && e1 == nil && e2 == nil {
 				pub := &ecdsa.PublicKey{Curve: curve, X: new(big.Int).SetBytes(x), Y: new(big.Int).SetBytes(y)}
 				if pub.Curve.IsOnCurve(pub.X, pub.Y) {
-					sigJwk = ecdsa.Verify(pub, digest, new(big.Int).SetBytes(sig[:len(sig)/2]), new(big.Int).SetBytes(sig[len(sig)/2:]))
+					v.sigJwk = v6EcVerifyAlg(pub, algName, si, sig, true)
+					v.laxJwk = v6EcVerifyAlg(pub, algName, si, sig, false)
 				}
 			}
 		}
 	}
 	return
+}
+
+// v6SetVerdicts fills the verdict data of a call: strict verdicts (the property's; used by the oracles), family-only verdicts
+// and key curves (the model's inputs: it applies AlgorithmFitsKey itself, on the key the code resolves)
+func v6SetVerdicts(c *v6Call, input []byte, keys []*v6Key) {
+	v := v6VerdictsAll(input, keys)
+	c.SigJwk, c.SigKeys, c.LaxJwk, c.LaxKeys, c.JwkCrv = v.sigJwk, v.sigKeys, v.laxJwk, v.laxKeys, v.jwkCrv
+	c.KeyCrvs = []string{}
+	for _, k := range keys {
+		c.KeyCrvs = append(c.KeyCrvs, k.crv())
+	}
 }
 
 // v6SignCurve signs like a JWS ECDSA signer would with ANY curve/hash combination: digest by the header algorithm, r||s
@@ -1022,6 +1099,10 @@ type v6Call struct {
 	Jws     map[string]any `json:"jws"`     // model's view
 	SigJwk  bool           `json:"sigJwk"`  // verdict: verifies against the embedded key
 	SigKeys []int          `json:"sigKeys"` // verdict: key indices it verifies against
+	LaxJwk  bool           `json:"laxJwk"`  // family-only verdict (digest by alg, whatever curve the key has): the model's jws.Verify parameter
+	LaxKeys []int          `json:"laxKeys"`
+	JwkCrv  string         `json:"jwkCrv"`  // curve of the embedded EC key ("" = none)
+	KeyCrvs []string       `json:"keyCrvs"` // curve of each known key
 	KidDid  *string        `json:"kidDid"`  // DID of the kid, nil if the kid does not parse
 	Phs     []string       `json:"phs"`     // payload hashes to add to the probe list
 	Note    string         `json:"note"`
@@ -1049,6 +1130,9 @@ type v6Op struct {
 	Ph    string   `json:"ph,omitempty"`
 	Sigt  int64    `json:"sigt,omitempty"`
 	Embed bool     `json:"embed,omitempty"`
+	// algfit: arguments of jwx.AlgorithmFitsKey
+	Alg   string   `json:"alg,omitempty"`
+	Shape string   `json:"shape,omitempty"` // Go type of the key : curve / length
 	Kid   string   `json:"kid,omitempty"`
 }
 
@@ -1110,6 +1194,8 @@ func (x *v6Exec) run(op v6Op) string {
 	case "hashlist":
 		in, _ := base64.StdEncoding.DecodeString(op.Call.In)
 		return v6HashListLine(in)
+	case "algfit":
+		return v6AlgFitLine(op.Alg, op.Shape)
 	case "newtx":
 		return v6NewTxLine(op)
 	case "shelf":
@@ -1271,6 +1357,7 @@ func (x *v6Exec) sched(op v6Op) string {
 type v6Gen struct {
 	rnd  *rand.Rand
 	keys []*v6Key
+	xkey *v6Key // one more key, on P-384, never picked as a random signer: only DID documents hold it (kid-referenced), index len(keys)
 	pid  int
 	lastSi  string
 	lastSig []byte
@@ -1279,6 +1366,13 @@ type v6Gen struct {
 
 // emit runs the op at once: the generator steers by what the implementation did (never by the model)
 func (g *v6Gen) emit(op v6Op) string { return g.sink(op) }
+
+func (g *v6Gen) allKeys() []*v6Key {
+	if g.xkey == nil {
+		return g.keys
+	}
+	return append(append([]*v6Key{}, g.keys...), g.xkey)
+}
 
 func v6Hex(b []byte) string { return hex.EncodeToString(b) }
 
@@ -1739,6 +1833,79 @@ func (g *v6Gen) hashListOps(n int) {
 	}
 }
 
+// ---------------------------------------------------------------- jwx.AlgorithmFitsKey, the guard of the signature verifier
+
+var v6FitKeys = map[string]any{}
+var v6FitOnce sync.Once
+
+// v6FitKey: one key per shape "<go type>:<curve or length>" (made once: the verdict only depends on type, curve and length)
+func v6FitKey(shape string) any {
+	v6FitOnce.Do(func() {
+		for _, c := range []elliptic.Curve{elliptic.P224(), elliptic.P256(), elliptic.P384(), elliptic.P521()} {
+			p, err := ecdsa.GenerateKey(c, crand.Reader)
+			if err != nil {
+				panic(err)
+			}
+			n := c.Params().Name
+			v6FitKeys["*ecdsa.PublicKey:"+n] = &p.PublicKey
+			v6FitKeys["ecdsa.PublicKey:"+n] = p.PublicKey
+			v6FitKeys["*ecdsa.PrivateKey:"+n] = p
+			if n != "P-224" { // jwx has no P-224
+				if k, err := jwk.FromRaw(&p.PublicKey); err == nil {
+					v6FitKeys["jwk.ECDSAPublicKey:"+n] = k
+				}
+				if k, err := jwk.FromRaw(p); err == nil {
+					v6FitKeys["jwk.ECDSAPrivateKey:"+n] = k
+				}
+			}
+		}
+		pub, _, _ := ed25519.GenerateKey(crand.Reader)
+		for _, l := range []int{0, 31, 32, 33} {
+			b := make([]byte, l)
+			copy(b, pub)
+			k := ed25519.PublicKey(b)
+			v6FitKeys["ed25519.PublicKey:"+strconv.Itoa(l)] = k
+			v6FitKeys["*ed25519.PublicKey:"+strconv.Itoa(l)] = &k
+		}
+		v6FitKeys["*ed25519.PublicKey:nil"] = (*ed25519.PublicKey)(nil)
+		if k, err := jwk.FromRaw(pub); err == nil {
+			v6FitKeys["jwk.OKPPublicKey:32"] = k
+		}
+		r, _ := rsa.GenerateKey(crand.Reader, 1024)
+		v6FitKeys["*rsa.PublicKey:"] = &r.PublicKey
+		v6FitKeys["nil:"] = nil
+		v6FitKeys["[]byte:"] = []byte("secret")
+	})
+	return v6FitKeys[shape]
+}
+
+var v6FitShapes = []string{"*ecdsa.PublicKey:P-224", "*ecdsa.PublicKey:P-256", "*ecdsa.PublicKey:P-384", "*ecdsa.PublicKey:P-521",
+	"ecdsa.PublicKey:P-224", "ecdsa.PublicKey:P-256", "ecdsa.PublicKey:P-384", "ecdsa.PublicKey:P-521",
+	"*ecdsa.PrivateKey:P-256", "*ecdsa.PrivateKey:P-384", "*ecdsa.PrivateKey:P-521",
+	"jwk.ECDSAPublicKey:P-256", "jwk.ECDSAPublicKey:P-384", "jwk.ECDSAPublicKey:P-521",
+	"jwk.ECDSAPrivateKey:P-256", "jwk.ECDSAPrivateKey:P-384", "jwk.ECDSAPrivateKey:P-521",
+	"ed25519.PublicKey:0", "ed25519.PublicKey:31", "ed25519.PublicKey:32", "ed25519.PublicKey:33",
+	"*ed25519.PublicKey:31", "*ed25519.PublicKey:32", "*ed25519.PublicKey:nil", "jwk.OKPPublicKey:32",
+	"*rsa.PublicKey:", "nil:", "[]byte:"}
+
+func v6AlgFitLine(alg, shape string) (line string) {
+	defer func() {
+		if r := recover(); r != nil {
+			line = "panic:algfit"
+		}
+	}()
+	return fmt.Sprintf("fits=%v", jwx.AlgorithmFitsKey(jwa.SignatureAlgorithm(alg), v6FitKey(shape)))
+}
+
+// algFitOps: every algorithm name (the allowed ones, the other JWS ones, case variants, empty) x every key shape
+func (g *v6Gen) algFitOps() {
+	for _, a := range []string{"ES256", "ES384", "ES512", "PS256", "PS384", "PS512", "EdDSA", "RS256", "HS256", "ES256K", "none", "es256", "eddsa", ""} {
+		for _, sh := range v6FitShapes {
+			g.emit(v6Op{Op: "algfit", Alg: a, Shape: sh, Note: sh})
+		}
+	}
+}
+
 // parser mutants of one valid transaction
 func (g *v6Gen) parserMutants(budget int) {
 	key := g.keys[g.rnd.Intn(len(g.keys))]
@@ -1912,6 +2079,8 @@ type v6Spec struct {
 	embedPriv bool // embed the signer's PRIVATE key as jwk
 	flat     bool // JWS flattened JSON serialisation instead of compact
 	curve    string // "" = the P-256 key `signer`; "P-384"/"P-521"/"P-256" = a fresh embedded key of that curve, signed per header alg
+	kidCurve bool // kid-referenced key: signed per header alg (digest by alg, r||s of the key's size) with the signer's key, or
+	xsigner  bool // ... with the history's P-384 key (index len(keys)) when xsigner
 	extraSeg bool // a fourth compact segment appended
 	framing  int  // 1 = signature segment padded, 2 = signature in the standard alphabet, 3 = trailing newline
 	ver      int  // 0 = 2
@@ -1953,6 +2122,17 @@ func (g *v6Gen) build(sp v6Spec) ([]byte, v6Call) {
 		}
 		si, sig = v6SignCurve(curveKey, a, hdr, sp.ph)
 	}
+	if sp.kidCurve && sp.embed < 0 && curveKey == nil {
+		a := sp.alg
+		if a == "" {
+			a = "ES256"
+		}
+		k := g.keys[sp.signer].priv
+		if sp.xsigner && g.xkey != nil {
+			k = g.xkey.priv
+		}
+		si, sig = v6SignCurve(k, a, hdr, sp.ph)
+	}
 	if sp.tamper {
 		sig[10] ^= 0x40
 	}
@@ -1981,8 +2161,8 @@ func (g *v6Gen) build(sp v6Spec) ([]byte, v6Call) {
 	g.lastSi, g.lastSig = si, sig
 	c := v6CallOf(input)
 	// verdicts: ECDSA verification done here with crypto/ecdsa (independent of jws.Verify), cross-checked with what was signed
-	c.SigJwk, c.SigKeys = v6Verdicts(input, g.keys)
-	if !sp.twoSigs && !sp.extraSeg && sp.framing == 0 && c.Jws["framing"] != "bad" && sp.curve == "" {
+	v6SetVerdicts(&c, input, g.allKeys())
+	if !sp.twoSigs && !sp.extraSeg && sp.framing == 0 && c.Jws["framing"] != "bad" && sp.curve == "" && !sp.kidCurve {
 		algOK := sp.alg == "" || sp.alg == "ES256"
 		valid := !sp.tamper && algOK
 		if c.SigJwk != (valid && sp.embed == sp.signer) || (len(c.SigKeys) > 0) != valid {
@@ -2007,6 +2187,8 @@ func (g *v6Gen) history(steps int, schedules bool) {
 		g.keys = append(g.keys, k)
 		keyHex = append(keyHex, k.hex)
 	}
+	g.xkey = v6NewKeyOn("P-384")
+	keyHex = append(keyHex, g.xkey.hex)
 	subs := []v6Sub{
 		{Name: "gossip", WantTx: true, Outcome: "finished"},
 		{Name: "nats", Persistent: true, WantPayload: true, Outcome: "finished"},
@@ -2283,7 +2465,7 @@ func (g *v6Gen) history(steps int, schedules bool) {
 				input = []byte(fmt.Sprintf(`{"payload":"%s","protected":"%s","signature":"%s"}`, parts[1], parts[0], v6b64(t.sig)))
 			}
 			c := v6CallOf(input)
-			c.SigJwk, c.SigKeys = v6Verdicts(input, g.keys)
+			v6SetVerdicts(&c, input, g.allKeys())
 			c.KidDid = t.call.KidDid
 			c.Phs = []string{}
 			c.Note = "re-encoded-duplicate"
@@ -2342,6 +2524,25 @@ func (g *v6Gen) history(steps int, schedules bool) {
 					// ECDSA algorithm / curve combinations with a fresh embedded key: only ES256+P-256, ES384+P-384, ES512+P-521 are JWS
 					combos := [][2]string{{"ES256", "P-384"}, {"ES384", "P-256"}, {"ES256", "P-521"}, {"ES512", "P-384"}, {"ES384", "P-384"}, {"ES512", "P-521"}}
 					cb := combos[g.rnd.Intn(len(combos))]
+					if len(sp.prevs) > 0 && g.xkey != nil && g.rnd.Intn(2) == 0 {
+						// the same through a KEY ID: the key the kid denotes in the signer's DID document (as of the first prev) is
+						// on another curve than the header algorithm says — P-256 signer key with ES384/ES512, the document's
+						// P-384 key with ES256/ES512 — or fits it (ES384 + P-384: valid, must get in)
+						kc := [][2]string{{"ES384", "P-256"}, {"ES512", "P-256"}, {"ES256", "P-384"}, {"ES512", "P-384"}, {"ES384", "P-384"}, {"ES256", "P-256"}}[g.rnd.Intn(6)]
+						ki := sp.signer
+						if kc[1] == "P-384" {
+							ki = len(g.keys)
+							sp.xsigner = true
+						}
+						sp.embed, sp.kid, sp.kidCurve, sp.alg = -1, "did:nuts:c#k1", true, kc[0]
+						regDoc("did:nuts:c", sp.prevs[0], "doc", [][2]any{{"did:nuts:c#k1", ki}})
+						if (kc[0] == "ES384" && kc[1] == "P-384") || (kc[0] == "ES256" && kc[1] == "P-256") {
+							note += ":(valid)kid:" + kc[0] + "+" + kc[1]
+						} else {
+							note += ":kid-alg-curve-mismatch:" + kc[0] + "+" + kc[1]
+						}
+						break
+					}
 					if sp.embed < 0 {
 						sp.embed = sp.signer
 					}
@@ -2532,7 +2733,7 @@ func (g *v6Gen) schedules(dagTxs []v6Tx, newPid func() int) {
 func (g *v6Gen) genSchedules(threads int, scenarios int) {
 	ils := v6Interleavings(threads)
 	for sc := 0; sc < scenarios; sc++ {
-		g.keys = nil
+		g.keys, g.xkey = nil, nil
 		var keyHex []string
 		for i := 0; i < 3; i++ {
 			k := v6NewKey()
@@ -2758,7 +2959,7 @@ func (b *VerifC06Builder) PublicKey(i int) crypto.PublicKey { return &b.g.keys[i
 // CallOf describes arbitrary bytes (e.g. a transaction made by the real CreateTransaction); verdicts by ECDSA verification
 func (b *VerifC06Builder) CallOf(input []byte) VerifC06Call {
 	c := v6CallOf(input)
-	c.SigJwk, c.SigKeys = v6Verdicts(input, b.g.keys)
+	v6SetVerdicts(&c, input, b.g.allKeys())
 	c.Phs = []string{}
 	return c
 }
